@@ -25,7 +25,11 @@ OUTSIDE = ["cross-kind ordering", "non-finite decimals", "fractional decimals (h
            "sorted on lists longer than the bound", "strings longer than the bound"]
 REACH = {"order", "sorted", "enum"}
 
-DATES = [_dt.datetime(1999, 12, 31), _dt.datetime(2000, 1, 1), _dt.datetime(2000, 1, 1, 0, 0, 1),
+# chronological (the oracle orders dates by their index in this pool)
+DATES = [_dt.datetime(999, 12, 31), _dt.datetime(1000, 1, 1),
+         _dt.datetime(1999, 12, 31), _dt.datetime(2000, 1, 1), _dt.datetime(2000, 1, 1, 0, 0, 1),
+         # dates inside one calendar second (they arise from date arithmetic with fractional days)
+         _dt.datetime(2000, 1, 1, 0, 0, 1, 250000), _dt.datetime(2000, 1, 1, 0, 0, 1, 500000),
          _dt.datetime(2024, 2, 29, 12)]
 
 
